@@ -28,9 +28,10 @@ def fn_case(draw):
     nflags = draw(st.integers(1, 3))
     slots = []
     for _ in range(draw(st.integers(2, 7))):
-        k = draw(st.sampled_from(["decl", "decl", "evaldecl", "evaldecl", "read", "read", "read", "blockshadow", "exprdecl", "assign", "innerfun"]))
+        k = draw(st.sampled_from(["decl", "decl", "evaldecl", "evaldecl", "read", "read", "read", "blockshadow", "exprdecl", "assign", "innerfun", "nest", "nest"]))
         name = draw(st.sampled_from(LOCALS + SHARED))
-        slots.append({"k": k, "name": name, "flag": draw(st.integers(0, nflags - 1)), "val": draw(st.integers(1, 99)), "neg": draw(st.booleans())})
+        slots.append({"k": k, "name": name, "flag": draw(st.integers(0, nflags - 1)), "val": draw(st.integers(1, 99)), "neg": draw(st.booleans()),
+                      "depth": draw(st.integers(1, 3)), "level": draw(st.integers(0, 3)), "flag2": draw(st.integers(0, nflags - 1)), "level2": draw(st.integers(0, 3))})
     calls = draw(st.lists(st.lists(st.booleans(), min_size=nflags, max_size=nflags), min_size=2, max_size=5))
     return {"kind": "fn", "nflags": nflags, "slots": slots, "calls": calls, "globals": draw(st.lists(st.sampled_from(SHARED), max_size=2, unique=True)),
             "late_global": draw(st.booleans())}
@@ -81,6 +82,21 @@ def build(c):
             elif s["k"] == "exprdecl":
                 # a declaration in call-argument position, as the only declaration of its block
                 body.append("if (%s) { rec(var %s = %d); rec(%s) }" % (cond, n, v, n))
+            elif s["k"] == "nest":
+                # nested scopes (each kept alive by a declaration of its own); under a flag, eval() declares the name in one of the levels
+                # between the function scope and the read, under another flag in a second level: the innermost read must see the nearest one
+                d = s["depth"]
+                txt = "rec(%s)" % n
+                for lvl in range(d, 0, -1):
+                    inj = ""
+                    if s["level"] % (d + 1) == lvl:
+                        inj += "if (%s) { eval(\"var %s = %d\") }; " % (cond, n, 100 + v)
+                    if s["level2"] % (d + 1) == lvl:
+                        inj += "if (p%d) { eval(\"var %s = %d\") }; " % (s["flag2"], n, 200 + v)
+                    txt = "{ var pad%d_%d = %d; %s%s }" % (lvl, v, lvl, inj, txt)
+                if s["level"] % (d + 1) == 0:
+                    txt = "if (%s) { eval(\"var %s = %d\") }; " % (cond, n, 100 + v) + txt
+                body.append(txt)
             elif s["k"] == "assign":
                 body.append("%s = %s + 1" % (n, n))
             else:
@@ -149,7 +165,7 @@ def check(c, ctx):
     text = build(c)
     res = ctx.request({"cmd": "run", "script": text, "engines": [{"opt": True, "cache_off": False}, {"opt": True, "cache_off": True}]})["results"]
     a, b = obs(res[0]), obs(res[1])
-    varying = c["kind"] != "fn" or any(s["k"] in ("evaldecl", "blockshadow", "exprdecl") for s in c["slots"])
+    varying = c["kind"] != "fn" or any(s["k"] in ("evaldecl", "blockshadow", "exprdecl", "nest") for s in c["slots"])
     if res[0].get("fast_hits", 0) >= 1 and varying:
         ctx.nontrivial(text)
     ctx.classify("family", c["kind"])
